@@ -566,7 +566,7 @@ def get_positions_within_basis(
     # unit cell defined by the basis
     max_a = origin + basis[0, :]
     max_b = origin + basis[1, :]
-    max_c = origin + basis[1, :]
+    max_c = origin + basis[2, :]
     max_ab = origin + basis[0, :] + basis[1, :]
     max_ac = origin + basis[0, :] + basis[2, :]
     max_bc = origin + basis[1, :] + basis[2, :]
